@@ -263,17 +263,22 @@ impl KrpcSocket {
 
     fn is_expected_response(&mut self, message: &Message, from: &SocketAddrV4) -> bool {
         // Positive or an error response or to an inflight request.
-        match self.inflight_requests.remove(message.transaction_id) {
-            Some(request) => {
-                if compare_socket_addr(&request.to, from) {
-                    return true;
-                } else {
-                    trace!(
-                        context = "socket_validation",
-                        message = "Response from wrong address"
-                    );
-                }
+        // Compare addresses _before_ removing the request, otherwise anyone guessing the
+        // (sequential) transaction id can cancel the request from a wrong address, and the
+        // genuine response that follows gets dropped as unexpected.
+        if let Some(request) = self.inflight_requests.peek(message.transaction_id) {
+            if !compare_socket_addr(&request.to, from) {
+                trace!(
+                    context = "socket_validation",
+                    message = "Response from wrong address"
+                );
+
+                return false;
             }
+        }
+
+        match self.inflight_requests.remove(message.transaction_id) {
+            Some(_) => return true,
             None => {
                 trace!(
                     context = "socket_validation",
@@ -443,6 +448,13 @@ impl InflightRequests {
         });
 
         tid
+    }
+
+    /// Returns the request with this transaction id, whether or not it timed out.
+    fn peek(&self, key: u32) -> Option<&InflightRequest> {
+        self.find_by_tid(key)
+            .ok()
+            .and_then(|index| self.requests.get(index))
     }
 
     fn remove(&mut self, key: u32) -> Option<InflightRequest> {
